@@ -1,4 +1,210 @@
 import VpnCloud.Model.Table
 import VpnCloud.Spec.TableSpec
+import VpnCloud.Proofs.Lemmas.TableLemmas
+/-
+  C12 — Claims are exact, expire, and vanish with their peer.  Property theorems.
+-/
 namespace VpnCloud.Proofs.C12
+open VpnCloud VpnCloud.Table VpnCloud.Spec VpnCloud.Spec.TableSpec VpnCloud.Proofs.TableLemmas
+
+/-! ### `set_claims` -/
+
+theorem setClaims_claims (t : Table) (now : Int) (p : PeerId) (cs : List Range) :
+    (t.setClaims now p cs).claims =
+      ((setClaimsLoop p (now + t.claimTimeout) t.claims cs false).1 ++
+        (setClaimsLoop p (now + t.claimTimeout) t.claims cs false).2.1.map
+          (fun c => ({ peer := p, claim := c, timeout := now + t.claimTimeout } : ClaimEntry))).filter
+        (fun e => e.timeout ≥ now) := rfl
+
+theorem setClaims_cache (t : Table) (now : Int) (p : PeerId) (cs : List Range) :
+    (t.setClaims now p cs).cache =
+      (if (setClaimsLoop p (now + t.claimTimeout) t.claims cs false).2.2 then
+          t.cache.map (fun v => if v.peer = p then { v with timeout := 0 } else v)
+        else t.cache).filter (fun v => v.timeout ≥ now) := rfl
+
+/-- an entry of `p` after `set_claims` is fresh and was announced -/
+theorem setClaims_mem_peer (t : Table) (now : Int) (p : PeerId) (cs : List Range) (hnow : 0 < now)
+    (e : ClaimEntry) (he : e ∈ (t.setClaims now p cs).claims) (hp : e.peer = p) :
+    e.timeout = now + t.claimTimeout ∧ e.claim ∈ cs := by
+  rw [setClaims_claims, List.mem_filter, List.mem_append] at he
+  rcases he with ⟨he | he, hto⟩
+  · rcases loop_mem_peer p _ _ _ _ e he hp with h | h
+    · exact h
+    · simp only [h, ge_iff_le, decide_eq_true_eq] at hto
+      omega
+  · rcases List.mem_map.1 he with ⟨c, hc, rfl⟩
+    exact ⟨rfl, loop_rest_subset p _ _ _ _ c hc⟩
+
+/-- every announced range is attributed to `p` after `set_claims` -/
+theorem setClaims_cover (t : Table) (now : Int) (p : PeerId) (cs : List Range)
+    (x : Range) (hx : x ∈ cs) : ∃ e ∈ (t.setClaims now p cs).claims, e.peer = p ∧ e.claim = x := by
+  rw [setClaims_claims]
+  rcases loop_cover p (now + t.claimTimeout) t.claims cs false x hx with h | ⟨e, he, hp, hc, hto⟩
+  · refine ⟨{ peer := p, claim := x, timeout := now + t.claimTimeout }, ?_, rfl, rfl⟩
+    rw [List.mem_filter, List.mem_append]
+    refine ⟨Or.inr (List.mem_map.2 ⟨x, h, rfl⟩), ?_⟩
+    simp only [ge_iff_le, decide_eq_true_eq]
+    omega
+  · refine ⟨e, ?_, hp, hc⟩
+    rw [List.mem_filter, List.mem_append]
+    refine ⟨Or.inl he, ?_⟩
+    simp only [hto, ge_iff_le, decide_eq_true_eq]
+    omega
+
+/-- entries of other peers are only swept -/
+theorem setClaims_others (t : Table) (now : Int) (p : PeerId) (cs : List Range) :
+    (t.setClaims now p cs).claims.filter (fun e => e.peer ≠ p) =
+      (t.claims.filter (fun e => e.peer ≠ p)).filter (fun e => e.timeout ≥ now) := by
+  rw [setClaims_claims, filter_comm, List.filter_append]
+  have h2 : ((setClaimsLoop p (now + t.claimTimeout) t.claims cs false).2.1.map
+      (fun c => ({ peer := p, claim := c, timeout := now + t.claimTimeout } : ClaimEntry))).filter
+      (fun e => decide (e.peer ≠ p)) = [] := by
+    rw [List.filter_eq_nil_iff]
+    intro e he
+    rcases List.mem_map.1 he with ⟨c, _, rfl⟩
+    simp
+  rw [h2, List.append_nil, loop_filter_ne]
+
+/-- if a range of `p` is dropped, the flag of the loop is set -/
+theorem setClaims_flag (t : Table) (now : Int) (p : PeerId) (cs : List Range)
+    (h : (claimsOf t p).any (fun r => !cs.contains r) = true) :
+    (setClaimsLoop p (now + t.claimTimeout) t.claims cs false).2.2 = true := by
+  apply loop_flag
+  right
+  simp only [claimsOf, List.any_eq_true, List.mem_map, List.mem_filter, decide_eq_true_eq,
+    Bool.not_eq_true'] at h
+  rcases h with ⟨r, ⟨e, ⟨he, hp⟩, rfl⟩, hr⟩
+  exact ⟨e, he, hp, by simpa using hr⟩
+
+theorem setClaims_exact (t : Table) (now : Int) (p : PeerId) (cs : List Range) (hnow : 0 < now) :
+    announceOk t now p cs (t.setClaims now p cs) = true := by
+  simp only [announceOk, Bool.and_eq_true]
+  refine ⟨⟨⟨⟨⟨?_, ?_⟩, ?_⟩, ?_⟩, ?_⟩, ?_⟩
+  · simp [sameParams, setClaims, housekeep]
+  · simp only [claimsOf, List.all_eq_true, List.mem_map, List.mem_filter, decide_eq_true_eq,
+      List.contains_iff_mem]
+    rintro r ⟨e, ⟨he, hp⟩, rfl⟩
+    exact (setClaims_mem_peer t now p cs hnow e he hp).2
+  · simp only [claimsOf, List.all_eq_true, List.contains_iff_mem, List.mem_map, List.mem_filter,
+      decide_eq_true_eq]
+    intro x hx
+    rcases setClaims_cover t now p cs x hx with ⟨e, he, hp, hc⟩
+    exact ⟨e, ⟨he, hp⟩, hc⟩
+  · simp only [List.all_eq_true, List.mem_filter, decide_eq_true_eq]
+    rintro e ⟨he, hp⟩
+    exact (setClaims_mem_peer t now p cs hnow e he hp).1
+  · simp only [decide_eq_true_eq]
+    exact setClaims_others t now p cs
+  · rw [setClaims_cache]
+    cases hf : (setClaimsLoop p (now + t.claimTimeout) t.claims cs false).2.2 with
+    | true =>
+      simp only [if_true, Bool.or_eq_true]
+      left
+      rw [zero_filter_cache _ _ _ hnow, sameSet_iff]
+      intro v
+      simp only [List.mem_filter, Bool.and_eq_true, decide_eq_true_eq]
+      exact ⟨fun ⟨a, b, c⟩ => ⟨a, c, b⟩, fun ⟨a, b, c⟩ => ⟨a, c, b⟩⟩
+    | false =>
+      simp only [Bool.false_eq_true, if_false, Bool.or_eq_true, Bool.and_eq_true]
+      right
+      refine ⟨?_, sameSet_refl _⟩
+      cases hd : (claimsOf t p).any (fun r => !cs.contains r) with
+      | false => rfl
+      | true => rw [setClaims_flag t now p cs hd] at hf; cases hf
+
+/-- peer 1 re-announces 10/8, drops 10.2/16 and adds 10.3/16 at time 100 (so `0 < now` holds) -/
+example : (0 : Int) < 100 ∧
+    (exTable.setClaims 100 1 [⟨[10, 0, 0, 0], 8⟩, ⟨[10, 3, 0, 0], 16⟩]).claims =
+      [⟨1, ⟨[10, 0, 0, 0], 8⟩, 1900⟩, ⟨2, ⟨[10, 1, 0, 0], 16⟩, 2000⟩, ⟨1, ⟨[10, 3, 0, 0], 16⟩, 1900⟩] ∧
+    (exTable.setClaims 100 1 [⟨[10, 0, 0, 0], 8⟩, ⟨[10, 3, 0, 0], 16⟩]).cache = [⟨[10, 1, 0, 1], 2, 400⟩] ∧
+    announceOk exTable 100 1 [⟨[10, 0, 0, 0], 8⟩, ⟨[10, 3, 0, 0], 16⟩]
+      (exTable.setClaims 100 1 [⟨[10, 0, 0, 0], 8⟩, ⟨[10, 3, 0, 0], 16⟩]) = true := by
+  decide
+
+/-! ### `remove_claims` -/
+
+theorem removeClaims_claims (t : Table) (now : Int) (p : PeerId) (hnow : 0 < now) :
+    (t.removeClaims now p).claims = t.claims.filter (fun e => e.peer ≠ p && e.timeout ≥ now) :=
+  zero_filter_claims t.claims p now hnow
+
+theorem removeClaims_cache (t : Table) (now : Int) (p : PeerId) (hnow : 0 < now) :
+    (t.removeClaims now p).cache = t.cache.filter (fun v => v.peer ≠ p && v.timeout ≥ now) :=
+  zero_filter_cache t.cache p now hnow
+
+theorem removeClaims_clears (t : Table) (now : Int) (p : PeerId) (hnow : 0 < now) :
+    disconnectOk t now p (t.removeClaims now p) = true := by
+  simp only [disconnectOk, Bool.and_eq_true, decide_eq_true_eq]
+  refine ⟨⟨?_, removeClaims_claims t now p hnow⟩, ?_⟩
+  · simp [sameParams, removeClaims, housekeep]
+  · rw [removeClaims_cache t now p hnow]
+    exact sameSet_refl _
+
+/-- removing peer 1 at time 100 leaves only the live claim and the cached decision of peer 2; afterwards an address
+    formerly routed to peer 1 has no next hop -/
+example : (0 : Int) < 100 ∧
+    (exTable.removeClaims 100 1).claims = [⟨2, ⟨[10, 1, 0, 0], 16⟩, 2000⟩] ∧
+    (exTable.removeClaims 100 1).cache = [⟨[10, 1, 0, 1], 2, 400⟩] ∧
+    disconnectOk exTable 100 1 (exTable.removeClaims 100 1) = true ∧
+    (exTable.lookup 101 [10, 2, 0, 1]).2 = some 1 ∧
+    ((exTable.removeClaims 100 1).lookup 101 [10, 2, 0, 1]).2 = none ∧
+    ((exTable.removeClaims 100 1).lookup 101 [10, 1, 0, 1]).2 = some 2 := by
+  decide
+
+/-- `0 < now` is needed: at time 0 (or before) the marker timeout `0` is not in the past, so the marked entries
+    survive the sweep -/
+example : disconnectOk exTable 0 1 (exTable.removeClaims 0 1) = false ∧
+    ((exTable.removeClaims 0 1).lookup 0 [10, 2, 0, 1]).2 = some 1 := by
+  decide
+
+/-! ### `housekeep` -/
+
+theorem housekeep_spec (t : Table) (now : Int) : sweepOk t now (t.housekeep now) = true := by
+  simp only [sweepOk, Bool.and_eq_true, decide_eq_true_eq]
+  refine ⟨⟨?_, rfl⟩, sameSet_refl _⟩
+  simp [sameParams, housekeep]
+
+/-- claims expire: after a sweep every remaining claim has a timeout that is not in the past, and a claim announced at `now`
+    carries the timeout `now + claimTimeout` -/
+theorem claims_expire (t : Table) (now : Int) : ∀ e ∈ (t.housekeep now).claims, e.timeout ≥ now := by
+  intro e he
+  simp only [housekeep, List.mem_filter, decide_eq_true_eq] at he
+  exact he.2
+
+/-- the sweep at time 100 drops the claim that expired at 50 and nothing else -/
+example : (exTable.housekeep 100).claims =
+      [⟨1, ⟨[10, 0, 0, 0], 8⟩, 2000⟩, ⟨2, ⟨[10, 1, 0, 0], 16⟩, 2000⟩] ∧
+    (exTable.housekeep 100).cache = exTable.cache ∧
+    sweepOk exTable 100 (exTable.housekeep 100) = true := by
+  decide
+
+/-! ### `lookup` only returns peers present in the table -/
+
+/-- a lookup can only return a peer that has a claim or a cached entry in the table -/
+theorem lookup_result_mem (t : Table) (now : Int) (a : Addr) (q : PeerId) (h : (t.lookup now a).2 = some q) :
+    (∃ v ∈ t.cache, v.peer = q) ∨ (∃ e ∈ t.claims, e.peer = q) := by
+  unfold lookup at h
+  split at h
+  · rename_i v hv
+    simp only [Option.some.injEq] at h
+    exact Or.inl ⟨v, List.mem_of_find?_eq_some hv, h⟩
+  · split at h
+    · rename_i e he
+      simp only [Option.some.injEq] at h
+      rcases (scan_some a t.claims none e he).1 with ⟨hm, _⟩ | hn
+      · exact Or.inr ⟨e, hm, h⟩
+      · cases hn
+    · cases h
+
+/-- hence a removed peer is never selected as next hop -/
+theorem removed_peer_unreachable (t : Table) (now now' : Int) (p : PeerId) (a : Addr) (hnow : 0 < now) :
+    ((t.removeClaims now p).lookup now' a).2 ≠ some p := by
+  intro h
+  rcases lookup_result_mem _ now' a p h with ⟨v, hv, hp⟩ | ⟨e, he, hp⟩
+  · rw [removeClaims_cache t now p hnow] at hv
+    simp [List.mem_filter] at hv
+    exact hv.2.1 hp
+  · rw [removeClaims_claims t now p hnow] at he
+    simp [List.mem_filter] at he
+    exact he.2.1 hp
+
 end VpnCloud.Proofs.C12
